@@ -37,7 +37,7 @@ def ENCODED():
     import ethosu.vela.high_level_command_to_npu_op as h2n
     import ethosu.vela.architecture_features as af
 
-    return [sch.Scheduler.propose_weight_buffering, h2n.create_weights, g.generate_weights, g.generate_biases, u.get_strides, u.get_address, u.get_address_range, u.get_address_ranges, g.check_mem_limits, t.Tensor.addresses_for_rolling_buffer,
+    return [__import__('ethosu.vela.graph_optimiser_util', fromlist=['x']).check_format_restrictions, h2n.modify_tile_addresses_for_padding, sch.Scheduler.propose_weight_buffering, h2n.create_weights, g.generate_weights, g.generate_biases, u.get_strides, u.get_address, u.get_address_range, u.get_address_ranges, g.check_mem_limits, t.Tensor.addresses_for_rolling_buffer,
             t.Tensor.address_for_coordinate, t.Tensor.get_strides, t.Tensor.get_augmented_coord, __import__('ethosu.vela.graph_optimiser_util', fromlist=['x'])._avoid_nhcwb16_for_shapes, h2n.get_region, h2n.get_mem_limits_for_regions,
             af.ArchitectureFeatures.mem_type_size, af.ArchitectureFeatures.is_spilling_enabled]
 
@@ -322,7 +322,103 @@ def buffering(V, **params):
     return c08.buffering(V, **params)
 
 
-FUNCS = {"rolling_dims": rolling_dims, "weight_dma": weight_dma, "buffering": buffering, "weight_ranges": weight_ranges, "idle_core": idle_core, "fm_in_tensor": fm_in_tensor, "lr_rolling": lr_rolling, "nhcwb16_shapes": nhcwb16_shapes, "footprint": footprint, "mem_limits": mem_limits, "rolling": rolling, "regions": regions}
+def tile_padding(V, W, C, elem, direction):
+    """tile padding (2x2 depthwise convolutions of a half-pixel-centres bilinear resize): modify_tile_addresses_for_padding re-points the four
+    tiles so that the (H+1)x(W+1) window the kernel reads replicates the edge row/column.  For every element (y, x, c) of that window the byte the
+    hardware tile rule addresses is the byte of the replicated element of the HxWxC NHCWB16 tensor - in particular inside the tensor's storage.
+    Symbolic height, base address, element; enumerated width, depth, element size, padding direction."""
+    import ethosu.vela.high_level_command_to_npu_op as h2n
+    from ethosu.vela import api as a
+    from ethosu.vela.data_type import DataType
+
+    H = V.int("H", 1, 4096)
+    base = V.int("base", 0, 1 << 32)
+    y, x, c = V.int("y", 0, 4096), V.int("x", 0, W), V.int("c", 0, C - 1)
+    V.assume(L(y) <= L(H))
+    box = a.NpuTileBox(height_0=H, height_1=H, width_0=W, addresses=[base, 0, 0, 0])
+    with core.shims((h2n, {"min": core.smin, "max": core.smax, "int": core.IntShim})):
+        t = h2n.modify_tile_addresses_for_padding(box, tuple(direction), channels=C, dtype=DataType.int16 if elem == 2 else DataType.int8)
+    c16 = -(-C // 16) * 16
+    sy = elem * W * c16
+    sc = 16 * elem * W
+    off = lambda yy, xx: yy * sy + (L(c) / 16) * sc + xx * 16 * elem + (L(c) % 16) * elem  # noqa
+    h0, h1, w0 = L(t.height_0), L(t.height_1), L(t.width_0)
+    ad = [L(v) for v in t.addresses]
+    right = L(x) >= w0
+    addr = z3.If(right, z3.If(L(y) >= h1, ad[3] + off(L(y) - h1, L(x) - w0), ad[1] + off(L(y), L(x) - w0)),
+                 z3.If(L(y) >= h0, ad[2] + off(L(y) - h0, L(x)), ad[0] + off(L(y), L(x))))
+    top, left, bottom, rightp = direction
+    oy = z3.If(L(y) >= 1, L(y) - 1, 0) if top else z3.If(L(y) <= L(H) - 1, L(y), L(H) - 1)
+    ox = z3.If(L(x) >= 1, L(x) - 1, 0) if left else z3.If(L(x) <= W - 1, L(x), W - 1)
+    want = L(base) + off(oy, ox)
+    return [("the padded window replicates the edge element", addr == want),
+            ("every byte read lies inside the tensor", z3.And(addr >= L(base), addr + elem <= L(base) + L(H) * sy))]
+
+
+def format_rules(V, nprod, ncons, accel="Ethos_U55_128"):
+    """the REAL check_format_restrictions on a tensor with stand-in producers and consumers whose kind (block operation, Memcpy = DMA copy,
+    ReduceSum, half-pixel bilinear depthwise convolution), NPU/CPU placement, read/write depth offsets and shapes are symbolic: the brick format
+    (NHCWB16, force_linear_format = False) is only chosen when every party can address bricks - no CPU party, no DMA copy on either side (a copy
+    moves the linear bytes), depth offsets multiples of 16, every party's view shape equal to the tensor's, no stride-modifying producer, no
+    ReduceSum consumer that needs NHWC.  Necessary conditions restated from the addressing rules; the function may be more conservative."""
+    import ethosu.vela.graph_optimiser_util as gu
+    from ethosu.vela.shape4d import Shape4D
+    from ethosu.vela.operation import Op
+    from ethosu.vela.data_type import DataType
+    from harness.c04 import arch_for
+
+    arch = arch_for(accel)
+    ts = [1, 8, 8, 32]
+    tens = _O(shape=ts, force_linear_format=None, dtype=DataType.int8, name="t")
+    must = []
+    prods, conss = [], []
+    for i in range(nprod):
+        kind = V.choice("prod%d_kind" % i, ["block", "memcpy", "resize_dw"])
+        npu = V.bool("prod%d_on_npu" % i)
+        wo = V.int("prod%d_write_depth" % i, 0, 64)
+        same = V.bool("prod%d_same_shape" % i)
+        has_wo = V.bool("prod%d_has_write_offset" % i) if nprod + ncons <= 2 else True  # three parties: offsets always present (0 = aligned)
+        t = {"block": Op.Conv2DBias, "memcpy": Op.Memcpy, "resize_dw": Op.DepthwiseConv2DBias}[kind]
+        shape = Shape4D(ts) if same else Shape4D([1, 8, 4, 64])
+        prods.append(_O(type=t, original_type=Op.ResizeBilinear if kind == "resize_dw" else t, run_on_npu=npu, memory_function=None,
+                        write_offset=Shape4D([0, 0, 0, wo]) if has_wo else None, ofm_shapes=[shape], ofm=tens))
+        must += [B(npu), z3.BoolVal(kind == "block"), B(same), z3.Or(z3.Not(B(has_wo)), L(wo) % 16 == 0)]
+    for i in range(ncons):
+        kind = V.choice("cons%d_kind" % i, ["block", "memcpy", "reducesum"])
+        npu = V.bool("cons%d_on_npu" % i)
+        ro = V.int("cons%d_read_depth" % i, 0, 64)
+        same = V.bool("cons%d_same_shape" % i)
+        has_ro = V.bool("cons%d_has_read_offset" % i) if nprod + ncons <= 2 else True
+        t = {"block": Op.Conv2DBias, "memcpy": Op.Memcpy, "reducesum": Op.ReduceSum}[kind]
+        shape = Shape4D(ts) if same else Shape4D([1, 8, 4, 64])
+        conss.append(_O(type=t, run_on_npu=npu, ifm=tens, ifm2=None, ifm_shapes=[shape, None], read_offsets=[Shape4D([0, 0, 0, ro]) if has_ro else None, None]))
+        must += [B(npu), z3.BoolVal(kind != "memcpy"), B(same), z3.Or(z3.Not(B(has_ro)), L(ro) % 16 == 0)]
+        if kind == "reducesum" and accel == "Ethos_U65_512":
+            must.append(z3.BoolVal(False))
+    tens.ops, tens.consumer_list = prods, conss
+    with core.shims((gu, {"min": core.smin, "max": core.smax, "any": _any, "all": _all})):
+        gu.check_format_restrictions(tens, arch)
+    brick = tens.force_linear_format is False  # Tensor.needs_linear_format: True and None (undecided) both mean linear
+    if not brick:
+        return None  # linear format is always addressable: the path is not subject to the claim (and does not count as reaching it)
+    return [("the brick format is only chosen when every producer and consumer can address bricks", z3.And(*must))]
+
+
+def _any(it):
+    for x in it:
+        if x:
+            return True
+    return False
+
+
+def _all(it):
+    for x in it:
+        if not x:
+            return False
+    return True
+
+
+FUNCS = {"format_rules": format_rules, "tile_padding": tile_padding, "rolling_dims": rolling_dims, "weight_dma": weight_dma, "buffering": buffering, "weight_ranges": weight_ranges, "idle_core": idle_core, "fm_in_tensor": fm_in_tensor, "lr_rolling": lr_rolling, "nhcwb16_shapes": nhcwb16_shapes, "footprint": footprint, "mem_limits": mem_limits, "rolling": rolling, "regions": regions}
 
 
 def instances(tier, seed):
@@ -362,6 +458,19 @@ def instances(tier, seed):
     for gname in ("weights", "biases"):
         out.append(dict(key="idle_core/%s" % gname, fn="idle_core", params=dict(accel="Ethos_U65_512", kind="conv", group=gname, light=True), weight=100))
     out.append(dict(key="rolling_dims", fn="rolling_dims", params={}))
+    for nprod, ncons in ((1, 1), (1, 2), (2, 1)):
+        for accel in ("Ethos_U55_128", "Ethos_U65_512"):
+            if tier == "quick" and nprod + ncons > 2 and accel != "Ethos_U55_128":
+                continue
+            out.append(dict(key="format_rules/p%d_c%d/%s" % (nprod, ncons, accel), fn="format_rules", params=dict(nprod=nprod, ncons=ncons, accel=accel), weight=30))
+    for W in (1, 2, 5):
+        for C in (1, 16, 17, 32, 40):
+            for elem in (1, 2):
+                for d in ((1, 1, 0, 0), (1, 0, 0, 1), (0, 1, 1, 0), (0, 0, 1, 1)):
+                    if tier == "quick" and (elem == 2) != (C in (16, 40)):
+                        continue
+                    out.append(dict(key="tile_padding/w%d_c%d_e%d/%s" % (W, C, elem, "".join(map(str, d))), fn="tile_padding",
+                                    params=dict(W=W, C=C, elem=elem, direction=list(d))))
     for nprod, ncons in ((1, 1), (1, 2), (2, 1), (1, 0)):
         out.append(dict(key="nhcwb16_shapes/p%d_c%d" % (nprod, ncons), fn="nhcwb16_shapes", params=dict(nprod=nprod, ncons=ncons)))
     return out
